@@ -212,9 +212,6 @@ def scalar_patch(ctx, k, kind):
         xh = skfem.solve(*skfem.condense(A, b, x=xD, D=Dd))
         ctx.close("dirichlet-values-reproduced", xh[Dd.flatten()], xD[Dd.flatten()], rtol=0, scale=1.0, atol=0.0,
                   mech="expanded-solution-differs-from-prescribed-values", **tag)
-        if xe is not None:
-            ctx.close("enforce-and-condense-agree", xe, xh, rtol=1e-7, scale=float(np.abs(xh).max()) + 1e-300,
-                      mech="enforce-and-condense-solutions-differ", **tag)
         if rec.nodal and can_project:
             # second spelling of the same data: nodal values; both must give the same boundary vector
             xN = np.zeros(basis.N)
@@ -238,6 +235,10 @@ def scalar_patch(ctx, k, kind):
                 return
     except Exception:
         pass
+    if Dfac.size and xe is not None:
+        # (after the conditioning guard: a singular kept block has no solution to agree on)
+        ctx.close("enforce-and-condense-agree", xe, xh, rtol=1e-7, scale=float(np.abs(xh).max()) + 1e-300,
+                  mech="enforce-and-condense-solutions-differ", **tag)
     bhi = skfem.CellBasis(mesh, rec.make(), intorder=order)
     err, nrm = l2_error(bhi, xh, u_fn)
     ctx.check(monitor, err <= 1e-8 * (nrm + 1e-300) + 1e-12, mech=f"patch-test:{name.split('(')[0]}:{'rd' if reaction else 'poisson'}",
